@@ -11,3 +11,9 @@
   (ite (= f fn$compile.IsState) (and (not (node_config sn)) (not (node_isopd sn)))
        (apply_other_filter f sn)))))
 (declare-fun node_type (Iface) Int)      ; parse.Node.Type()
+; parse-tree accessors (pure): the first child of a given statement type (nil if none) and typed arguments
+(declare-fun node_child_by_type (Iface Int) Iface)
+(declare-fun node_argbool (Iface) Bool)
+(declare-fun node_argstatus (Iface) String)
+(declare-fun type_default (Iface) String)
+(declare-fun type_hasdefault (Iface) Bool)
